@@ -643,8 +643,8 @@ class Session:
             self.keep.append(o)
         elif k == 'set':
             o = self.names.get(op[1])
-            if o is None:
-                return
+            if o is None or (o._p_jar is not None and o._p_jar.opened is None):
+                return              # (an object of a connection that has been closed)
             v = self.build(op[3], {})
             try:
                 if isinstance(o, PersistentMapping):
@@ -1174,7 +1174,7 @@ class Session:
                         self.weak_deref(dbs2, keys)
                     finally:
                         for db in dbs2:
-                            db.close()
+                            close_db(db)
                 else:
                     self.weak_deref(dbs, keys)
                 c = dbs[0].open(transaction_manager=transaction.TransactionManager())
@@ -1184,7 +1184,7 @@ class Session:
             finally:
                 c14_classes.show_gone()
                 for db in dbs:
-                    db.close()
+                    close_db(db)
         for dup, out, args_seen in res:
             self.emit(lenv, 'ok')
             self.emit('lwalk ' + ktxt, canon_walk('dup=%d | %s' % (dup, ' | '.join(out))))
@@ -1600,7 +1600,7 @@ class Session:
                         c.close()
                     finally:
                         for db in dbs:
-                            db.close()
+                            close_db(db)
                     del c, dbs
                     return dup, out, self.viol[n0:]
                 if not LEGACY_LOAD[0]:
@@ -1610,6 +1610,15 @@ class Session:
                 self.emit('lwalk ' + ','.join('%d:%s' % (d, o.hex()) for d, o in keys),
                           canon_walk('dup=%d | %s' % (dup, ' | '.join(out))))
                 Oracle(self).loaded(dup, out, 'legacy', False)
+
+
+def close_db(db):
+    """close a scratch DB; closing the members of a multi-database one after the other can trip over the
+    connections they share (a sibling's storage is already closed) — of no interest here"""
+    try:
+        db.close()
+    except Exception:
+        pass
 
 
 def gone_factory(conn, modulename, globalname):
